@@ -28,6 +28,9 @@ Fold(evs, k, open, cur, written, pending) ==
          ELSE IF ~e.same THEN <<k, "the payload differs from the line the record gives when logged alone">>
          ELSE IF e.r \in written THEN <<k, "a record appears twice on the destination">>
          ELSE Fold(evs, k + 1, open \cup {e.g}, [cur EXCEPT ![e.g].n = @ + 1], written \cup {e.r}, pending \ {e.r})
+    [] e.e = "hbad" -> <<k, "hammer phase: a payload differs from every line the records give when logged alone, or Write calls overlap">>
+    [] e.e = "hsum" -> IF e.r # e.n THEN <<k, "hammer phase: the number of Write calls differs from the number of enabled records">>
+                       ELSE Fold(evs, k + 1, open, cur, written, pending)
     [] e.e = "wchanged" -> <<k, "the payload changed while the destination was still reading it (buffer reused before Write returned)">>
     [] e.e = "we" -> Fold(evs, k + 1, open \ {e.g}, cur, written, pending)
     [] e.e = "le" ->
